@@ -16,21 +16,24 @@ def gp_program(sc):
     return "\n".join(out) + "\n"
 
 
-def gp_consts(sc, flavor, sysmb, fault_budget=0, sig_threads=(), sig_budget=0, futex_mode="futex", skip=(), weak=(), sbblock=False, sbmax=None):
+def gp_consts(sc, flavor, sysmb, fault_budget=0, sig_threads=(), sig_budget=0, futex_mode="futex", skip=(), weak=(), sbblock=False, sbmax=None, sig_futex=False):
     return {"Threads": tla(set(sc["threads"])), "Prog": tla_fun(sc["threads"]), "SBMax": str(sbmax if sbmax is not None else sc.get("sbmax", 2)),
             "Flavor": '"%s"' % flavor, "SysMb": "TRUE" if sysmb else "FALSE", "QSAttempts": "2", "WaitAttempts": "2",
-            "FaultBudget": str(fault_budget), "SigThreads": tla(set(sig_threads)), "SigBudget": str(sig_budget),
+            "FaultBudget": str(fault_budget), "SigThreads": tla(set(sig_threads)), "SigBudget": str(sig_budget), "SigFutex": "TRUE" if sig_futex else "FALSE",
             "FutexMode": '"%s"' % futex_mode, "Skip": tla(set(skip)), "Weak": tla(set(weak)), "SBBlock": "TRUE" if sbblock else "FALSE"}
 
 
-def gp_component(flavor, sysmb, fault_budget=0, sig_threads=(), sig_budget=0, futex_mode="futex", extra_invariants=()):
+def gp_component(flavor, sysmb, fault_budget=0, sig_threads=(), sig_budget=0, futex_mode="futex", extra_invariants=(), faults="mixed", sig_futex=False):
     """flavor: 'mb' | 'memb'; sysmb: bool (memb only); futex_mode: 'futex' | 'enosys' (Linux: futex() fails with ENOSYS, both wrappers fall
     back to compat_futex_async; runtime VRT_FUTEX_ENOSYS=1) | 'compat' (generic branch of urcu/futex.h: compat_futex_async / compat_futex_noasync;
-    driver built with -DGP_GENERIC_FUTEX)"""
+    driver built with -DGP_GENERIC_FUTEX); faults: 'mixed' (runtime injects value-unchanged returns first, then EINTR) | 'eintr' (EINTR only);
+    sig_futex: signals are also delivered to threads asleep in FUTEX_WAIT, whose wait then returns EINTR (runtime VRT_SIG_FUTEX=1, spec SigFutex)"""
     env = {"VRT_MEMBARRIER": 1 if sysmb else 0}
     if fault_budget:
         env["VRT_SPURIOUS"] = (fault_budget + 1) // 2; env["VRT_EINTR"] = fault_budget // 2
-    name = flavor + ("_sys" if (flavor == "memb" and sysmb) else "_nosys" if flavor == "memb" else "") + ("_f%d" % fault_budget if fault_budget else "") + ("_sig" if sig_threads else "")
+        if faults == "eintr":
+            env["VRT_SPURIOUS"] = 0; env["VRT_EINTR"] = fault_budget
+    name = flavor + ("_sys" if (flavor == "memb" and sysmb) else "_nosys" if flavor == "memb" else "") + ("_f%d%s" % (fault_budget, "e" if faults == "eintr" else "") if fault_budget else "") + ("_sig" if sig_threads else "")
     defines = ["FLAVOR_" + flavor.upper(), "URCU_VERIF_RCU_QS_ACTIVE_ATTEMPTS=2", "URCU_VERIF_URCU_WAIT_ATTEMPTS=2"]
     if futex_mode == "enosys":
         env["VRT_FUTEX_ENOSYS"] = 1; name += "_enosys"
@@ -38,12 +41,14 @@ def gp_component(flavor, sysmb, fault_budget=0, sig_threads=(), sig_budget=0, fu
         defines.append("GP_GENERIC_FUTEX"); name += "_compat"
     if sig_threads:
         env["VRT_SIGS"] = sig_budget
+        if sig_futex:
+            env["VRT_SIG_FUTEX"] = 1; name += "fx"
     return {
         "name": name, "spec": "UrcuGp", "driver": "d_gp.c", "trace": "UrcuGpTrace", "drvname": "d_gp_" + name,
         "defines": defines,
         "invariants": [], "mc_invariants": (["SigDeadlockFree"] if sig_threads else ["DeadlockFree"]) + ["FutexRange", "LockOrder"] + list(extra_invariants), "constraints": ["SBBound"],
-        "consts": lambda sc: gp_consts(sc, flavor, sysmb, fault_budget, sig_threads, sig_budget, futex_mode),
+        "consts": lambda sc: gp_consts(sc, flavor, sysmb, fault_budget, sig_threads, sig_budget, futex_mode, sig_futex=sig_futex),
         "mc_spec": "SigSpec" if sig_threads else "Spec", "mc_next": "SigNext" if sig_threads else "Next",
         "program": gp_program, "env": env, "normalize": {"extra_fields": ("k", "m")}, "variant": name, "pct_len": 200,
-        "flavor": flavor, "sysmb": sysmb, "fault_budget": fault_budget, "futex_mode": futex_mode,
+        "flavor": flavor, "sysmb": sysmb, "fault_budget": fault_budget, "futex_mode": futex_mode, "faults": faults,
     }
